@@ -647,7 +647,18 @@ Error Message: {}
                 blob = self._get_session_blob(
                     key, service, username, algorithm
                 )
-                if not key.verify_ssh_sig(blob, sig):
+                # The signature must use the algorithm named in the request
+                # (certificate algorithms sign with their base algorithm),
+                # which was checked against our enabled algorithms above.
+                expected = algorithm.replace("-cert-v01@openssh.com", "")
+                if Message(sig.asbytes()).get_string() != b(expected):
+                    self._log(
+                        INFO,
+                        "Auth rejected: signature algorithm does not match "
+                        "the requested algorithm '{}'".format(algorithm),
+                    )
+                    result = AUTH_FAILED
+                elif not key.verify_ssh_sig(blob, sig):
                     self._log(INFO, "Auth rejected: invalid signature")
                     result = AUTH_FAILED
         elif method == "keyboard-interactive":
